@@ -3,7 +3,7 @@
    err: Rollback | Commit} -> fn; removing or reordering a Commit/Rollback call breaks these lemmas. *)
 From God Require Import Base.Prelude C11.Model C11.Spec C11.Proofs C11.Exec C11.GenEnv.
 From GodGen Require C11_Gen.
-From Coq Require Import Strings.String.
+From Coq Require Import Strings.String QArith.
 Local Open Scope string_scope.
 
 (* tx.go:145-169. "b" = begin; first "return" = the early return on a begin error; inside the deferred
@@ -160,6 +160,28 @@ Lemma link_orm_stateless :
   hd "" C11_Gen.mapstruct_skeleton = "unwrapFields" /\
   nth 4 C11_Gen.mapstruct_skeleton "" = "getTaggedFieldValueMap".
 Proof. repeat split; reflexivity. Qed.
+
+(* ---- the breaker around conn queries (Model part 4): the constants of the drop-ratio formula, doReq's
+   accept / mark structure, and queryRows' acceptable closure (scanErr == err || db.acceptable(err)) ---- *)
+Lemma link_breaker :
+  C11_Gen.brk_k = (3 # 2)%Q /\ C11_Gen.brk_protection = 5%Z /\
+  C11_Gen.doreq_skeleton =
+    ["b.accept"; "fallback"; "return"; "return"; "defer:func"; "{"; "b.markFailure"; "}"; "req"; "acceptable";
+     "b.markSuccess"; "b.markFailure"; "return"] /\
+  C11_Gen.queryrows_skeleton =
+    ["db.provider"; "db.onError"; "return"; "scanner"; "return"; "query"; "return"; "db.acceptable"; "return";
+     "db.brk.DoWithAcceptable"; "metricReqErr.Inc"; "return"].
+Proof. repeat split; reflexivity. Qed.
+
+(* brk_may_reject is the sign of the drop ratio with those constants: (total - protection) - k * accepts > 0 *)
+Lemma link_drop_ratio s :
+  brk_may_reject s = true <->
+  (0 < (inject_Z (Z.of_nat (bk_total s)) - inject_Z C11_Gen.brk_protection) - C11_Gen.brk_k * inject_Z (Z.of_nat (bk_accepts s)))%Q.
+Proof.
+  unfold brk_may_reject, C11_Gen.brk_k, C11_Gen.brk_protection. rewrite Z.ltb_lt.
+  generalize (Z.of_nat (bk_total s)) (Z.of_nat (bk_accepts s)). intros t a.
+  unfold Qlt, Qminus, Qplus, Qmult, Qopp, inject_Z. cbn -[Z.mul Z.add Z.sub Z.opp]. lia.
+Qed.
 
 (* ---- soundness of the executable checkers used by Exec.v ---- *)
 Lemma fkind_eqb_eq : forall a b, fkind_eqb a b = true <-> a = b.
